@@ -6,6 +6,7 @@ import QR.Proofs.Pinned
 import QR.Proofs.SourceTieA3
 import QR.Proofs.SourceTieA4
 import QR.Proofs.SourceTieA5b
+import QR.Proofs.SourceTieD6a
 /-
 C02 - every error-correction block is a codeword of the ISO Reed-Solomon code; block structure = ISO Table 9.
 -/
@@ -253,6 +254,31 @@ theorem C02_source_createBytes_src (buf : List Nat) (blocks : List (Nat × Nat))
   QR.SourceTieA.createBytes_src buf blocks
 
 end SourceTieT2
+
+/-! ### Source tie, part 4 (T2 plugin `tools/t2_fragments/frag_d6.py`): small leftovers, translated whole from /repo's current
+    Python AST (`QR.Gen.Code.lo_*`, regenerated on every run). Restated verbatim from `QR/Proofs/SourceTieD6*.lean`. -/
+section SourceTieD6
+open QR.Model QR.Gen.Code QR.SourceTieD6
+
+/-- `Polynomial.__getitem__`, `__iter__`, `__len__` (qrcode/base.py) all read the attribute `Polynomial.__init__` stores -/
+theorem C02_source_poly_accessors_literals :
+    lo_poly_init_stores = [lo_poly_getitem_attr] ∧ lo_poly_iter_attr = lo_poly_getitem_attr ∧
+    lo_poly_len_attr = lo_poly_getitem_attr :=
+  QR.SourceTieD6.poly_accessors_literals
+
+/-- `Polynomial.__getitem__`: the `idx self i` / `self.getD i 0` by which `Model.polyMod` / `Model.polyMul` read `self[i]`
+    are the translated `return self.num[index]` -/
+theorem C02_source_poly_getitem_src (num : List Nat) (i : Nat) :
+    idx num i = (match lo_poly_getitem num (i : Int) with | some a => .ok a | none => .error .indexError) ∧
+    num.getD i 0 = (lo_poly_getitem num (i : Int)).getD 0 :=
+  QR.SourceTieD6.poly_getitem_src num i
+
+/-- `Polynomial.__len__` / `__iter__`: the Model's `self.length` and its iteration of the coefficient list are the translated
+    `len(self.num)` / `iter(self.num)` -/
+theorem C02_source_poly_len_iter_src (num : List Nat) : lo_poly_len num = (num.length : Int) ∧ lo_poly_iter num = num :=
+  QR.SourceTieD6.poly_len_iter_src num
+
+end SourceTieD6
 
 /-- the Python functions this property's model mirrors have, in /repo's current working tree, exactly the normalised
     ASTs the model was written and validated against (fingerprints regenerated by T1 on every run) -/
